@@ -87,6 +87,7 @@ type recorder struct {
 	// descriptor ledger (C07): descriptors created by the framework and not yet closed
 	owned    map[int]string
 	ledgerOn bool
+	efdWrites int // writes to a wake-up descriptor (any thread): a task has been queued for a loop
 	canaries map[int]*net.UDPConn
 
 	// per-connection ground truth for the oracles
@@ -487,6 +488,12 @@ func (r *recorder) After(c *vunix.Call) {
 	defer r.mu.Unlock()
 	// ---- ledger updates (all threads)
 	switch c.Name {
+	case "write":
+		for _, e := range r.efds {
+			if e == c.Fd {
+				r.efdWrites++
+			}
+		}
 	case "epoll_create1":
 		if c.Err == nil {
 			r.owned[c.Ret] = "epoll"
